@@ -236,7 +236,8 @@ def mon_mutex(run, ords):
     """C17: at most one thread between `lock ok` and `unlock`; `guard` only while holding; the
     ordering arguments passed at run time are the ones the extractor read from the source."""
     bad, holder = [], None
-    exp_lock = ords["mutex_try_lock"][0][1] if ords["mutex_try_lock"] else None
+    # the CAS of try_lock as extracted (no expectation when the extractor finds none there: the tie theorem `Tie.mutex_orderings_ok` reports that)
+    exp_lock = next((o for (k, o) in ords["mutex_try_lock"] if k == "cas"), None)
     exp_unlock = ords["mutex_unlock"][0][1] if ords["mutex_unlock"] else None
     for i, (tid, kind, args) in enumerate(run.events):
         if kind == "lock":
